@@ -567,6 +567,8 @@ func buildOps(fsName, R, tier string) []fsx.Call {
 		ops = append(ops,
 			fsx.Call{Op: "Mkdir", A: p, Perm: 0o755},
 			fsx.Call{Op: "MkdirAll", A: p, Perm: 0o750},
+			// no write/search bit for the owner: every level must get exactly these bits
+			fsx.Call{Op: "MkdirAll", A: p, Perm: 0o500},
 			fsx.Call{Op: "Remove", A: p},
 			fsx.Call{Op: "RemoveAll", A: p},
 			fsx.Call{Op: "Create", A: p},
